@@ -46,7 +46,8 @@ def sample_replay(env):
     bad = []
     configs = {'class': GaussianUnivariate, 'name': 'copulas.univariate.gaussian.GaussianUnivariate',
                'instance': GaussianUnivariate(), 'dict': {'t': GaussianUnivariate, 'lat': GaussianUnivariate(),
-                                                          'w': UniformUnivariate, 'k': GaussianUnivariate}}
+                                                          'w': UniformUnivariate, 'k': GaussianUnivariate},
+               'partial dict': {'w': UniformUnivariate}}
     for name, dist in configs.items():
         m = GaussianMultivariate(distribution=dist, random_state=0)
         m.fit(X)
@@ -78,8 +79,10 @@ def build(chk):
     dims = (2, 3) if chk.tier == 'quick' else (2, 3, 4)
     for d in dims:
         labels = NAMES[:d]
-        for cfg in ('class', 'name', 'instance', 'dict', 'class_after_refit'):
+        for cfg in ('class', 'name', 'instance', 'dict', 'partial_dict', 'class_after_refit'):
             if cfg == 'class_after_refit' and d != 2:
+                continue
+            if cfg == 'partial_dict' and d < 3:
                 continue
             consts = [(), (labels[1],)] if cfg in ('class', 'dict') else [()]
             for const in consts:
@@ -88,6 +91,11 @@ def build(chk):
                 gm.install_rootfinders(I)
                 Gq, Uq = uni.CLASSES['GaussianUnivariate'][0], uni.CLASSES['UniformUnivariate'][0]
                 fam = ['GaussianUnivariate'] * d
+                if cfg == 'partial_dict':
+                    # a dict naming only the LAST column; the unnamed ones go through the selecting Univariate, whose choice
+                    # is taken from its contract (C05) - here a Gaussian. Schema and per-column marginals as for a full dict.
+                    I.summaries['copulas.univariate.selection.select_univariate'] = \
+                        lambda interp, args, kwargs: uni.new_model(interp, 'GaussianUnivariate')
 
                 def mkdist(I=I, cfg=cfg, labels=labels, fam=fam):
                     G, Uc = I.resolve(Gq), I.resolve(Uq)
@@ -97,6 +105,9 @@ def build(chk):
                         return Gq
                     if cfg == 'instance':
                         return I.call(G, [], {})
+                    if cfg == 'partial_dict':
+                        fam[:] = ['Univariate'] * (len(labels) - 1) + ['UniformUnivariate']
+                        return {labels[-1]: Uc}
                     out = {}
                     for i, l in enumerate(labels):
                         out[l] = [G, Uc, I.call(G, [], {}), Gq][i % 4] if i > 0 else I.call(Uc, [], {})
